@@ -5,7 +5,8 @@
    [exec_block interp im e s b]: one block [b] = (header, transactions) executed from chain state [s] by the
    implementation [im] ([impl_head] = /repo HEAD) under the ambient conditions [e : nenv] = wall clock, the order in
    which Go enumerates each map at each iteration site, the node's minimum-gas-prices, the node's evm.tracer,
-   GOMAXPROCS.  Output: next state, per-transaction results (code, gas wanted, gas used, events in order), validator
+   GOMAXPROCS, the node's telemetry switch, and a component standing for every other node-local setting (app.toml,
+   config.toml, start flags).  Output: next state, per-transaction results (code, gas wanted, gas used, events in order), validator
    updates.  [interp] — the go-ethereum interpreter with TransitionDb, as the list of StateDB calls it makes, the gas
    figures and the VM error — may be ANY function of header, state and transaction; it does not get [e].
    Block time and height are fields of the header. *)
@@ -74,6 +75,13 @@ Theorem C01_tracer_never_fails : forall tr t, new_tracer impl_head tr t = Ok tt.
 Proof. exact new_tracer_head. Qed.
 Print Assumptions C01_tracer_never_fails.
 
+(* a state transition refused by the core (value above balance) fails with the same result on every node: the handler
+   does not look at the telemetry switch (the metrics block runs only for applied transactions) nor at any other setting *)
+Theorem C01_apply_error_ignores_node_config : forall e1 e2 t g,
+  apply_error_result impl_head e1 t g = apply_error_result impl_head e2 t g.
+Proof. exact apply_error_head. Qed.
+Print Assumptions C01_apply_error_ignores_node_config.
+
 (* staking precompile transfer(): the comparison (tokens, operator) orders distinct validators totally, so ANY sorting
    algorithm — slices.SortFunc is not stable — produces one and the same list ... *)
 Theorem C01_any_sort_gives_the_same_list : forall l l',
@@ -125,34 +133,41 @@ Proof. exact node_run_blocks. Qed.
 Print Assumptions C01_local_requests_and_restarts_erasable.
 
 (* ---- 4. the statement is about the code as repaired: each of the three defects the unchanged tree had refutes it
-        (known findings C01/twin/..., fixed by /repo 295ed89, 133c300, 17e00a9) *)
+        (known findings C01/twin/..., fixed by /repo 295ed89, 133c300, 17e00a9), and so does the seeded telemetry
+        variant of EthereumTx (never in /repo; the twin run's node-configuration process reports it) *)
 Definition C01_env_independent_of (im : impl) : Prop :=
   forall interp e1 e2 s b, perm_ok e1 -> perm_ok e2 ->
     exec_block interp im e1 s b = exec_block interp im e2 s b.
 
-Theorem C01_wall_clock_guard_refuted : ~ C01_env_independent_of (mkImpl true false false).
+Theorem C01_wall_clock_guard_refuted : ~ C01_env_independent_of (mkImpl true false false false).
 Proof. exact wallclock_guard_refuted. Qed.
 Print Assumptions C01_wall_clock_guard_refuted.
 
-Theorem C01_commit_in_map_order_refuted : ~ C01_env_independent_of (mkImpl false true false).
+Theorem C01_commit_in_map_order_refuted : ~ C01_env_independent_of (mkImpl false true false false).
 Proof. exact commit_map_order_refuted. Qed.
 Print Assumptions C01_commit_in_map_order_refuted.
 
-Theorem C01_tracer_nil_recipient_refuted : ~ C01_env_independent_of (mkImpl false false true).
+Theorem C01_tracer_nil_recipient_refuted : ~ C01_env_independent_of (mkImpl false false true false).
 Proof. exact tracer_nil_to_refuted. Qed.
 Print Assumptions C01_tracer_nil_recipient_refuted.
+
+Theorem C01_telemetry_nil_response_refuted : ~ C01_env_independent_of (mkImpl false false false true).
+Proof. exact telemetry_nil_resp_refuted. Qed.
+Print Assumptions C01_telemetry_nil_response_refuted.
 
 (* ------------------------------------------------------------------ non-vacuity *)
 
 (* two environments that differ in every component satisfy the hypotheses *)
 Example C01_example_envs : perm_ok env_id /\ perm_ok env_rev /\ n_now env_id <> n_now env_rev /\
   n_min_gas env_id <> n_min_gas env_rev /\ n_tracer env_id <> n_tracer env_rev /\
-  n_order env_id 0 0 0 [1; 2; 3] <> n_order env_rev 0 0 0 [1; 2; 3].
+  n_order env_id 0 0 0 [1; 2; 3] <> n_order env_rev 0 0 0 [1; 2; 3] /\
+  n_telemetry env_id <> n_telemetry env_rev /\ n_cfg_other env_id <> n_cfg_other env_rev /\ n_procs env_id <> n_procs env_rev.
 Proof. repeat split; try apply env_id_perm; try apply env_rev_perm; vm_compute; discriminate. Qed.
 
 (* a block that destroys an expired vesting account, self-destructs two contracts (burns in address order), fails on an
    unexpired vesting account, creates a contract, delegates through transfer() (validator update) and contains an
-   under-priced transaction: same non-trivial result under both *)
+   under-priced transaction, a call sending more than its sender owns (refused by the state transition: code 1, on the
+   telemetry node too) and a creation endowed within the sender's means: same non-trivial result under both *)
 Example C01_example_block :
   results (exec_block ex_interp impl_head env_id ex_state ex_block) =
     ([mkRes 0 100000 21000 [];
@@ -160,11 +175,21 @@ Example C01_example_block :
       mkRes CODE_PANIC 100000 30000 [];
       mkRes 0 100000 21000 [];
       mkRes 0 100000 100000 [EvDelegate 8 2 (2 * 10 ^ 18)];
-      mkRes CODE_INSUFFICIENT_FEE (-1) 0 []],
+      mkRes CODE_INSUFFICIENT_FEE (-1) 0 [];
+      mkRes CODE_APPLY_ERROR 100000 21000 [];
+      mkRes 0 100000 21000 []],
      [(2, 3)]) /\
   results (exec_block ex_interp impl_head env_rev ex_state ex_block) =
   results (exec_block ex_interp impl_head env_id ex_state ex_block).
-Proof. split; vm_compute; reflexivity. Qed.
+Proof. exact ex_block_result. Qed.
+
+(* the seeded variant on the same two nodes: only the refused transfer tells them apart *)
+Example C01_example_telemetry_variant :
+  results (exec_block ex_interp (mkImpl false false false true) env_id ex_state (mkHeader 7 4000, [ex_tx_value false (10 ^ 21); ex_tx_value false 5])) =
+    ([mkRes CODE_APPLY_ERROR 100000 21000 []; mkRes 0 100000 21000 []], []) /\
+  results (exec_block ex_interp (mkImpl false false false true) env_rev ex_state (mkHeader 7 4000, [ex_tx_value false (10 ^ 21); ex_tx_value false 5])) =
+    ([mkRes CODE_PANIC 100000 21000 []; mkRes 0 100000 21000 []], []).
+Proof. exact telemetry_variant_results. Qed.
 
 (* the ambient inputs are live: the mempool's decision on the same transaction differs between the two nodes *)
 Example C01_example_mempool_differs :
